@@ -46,19 +46,24 @@ def source_hash():
 
 
 def binary_path(profile="debug"):
+    if profile == "valgrind":
+        profile = "release"
     tag = hashlib.sha1(os.path.abspath(REPO).encode()).hexdigest()[:10]
     return os.path.join(TARGET, "bin", "%s-%s" % (tag, profile), "masscanned")
 
 
 def binary(profile="debug", quiet=True):
-    """profile: 'debug' | 'release' | 'cov' (debug + -Cinstrument-coverage, nightly-free)."""
+    """profile: 'debug' | 'release' | 'cov' (debug + -Cinstrument-coverage on the nightly toolchain, whose llvm-tools
+    provide the matching llvm-profdata / llvm-cov)."""
     os.makedirs(TARGET, exist_ok=True)
     tag = hashlib.sha1(os.path.abspath(REPO).encode()).hexdigest()[:10]
     # one cargo target directory per source path: with a shared one cargo does not re-link target/debug/masscanned
     # when the other tree's build is "fresh", and the wrong binary would be picked up
     tdir = TARGET if os.path.abspath(REPO) == "/repo" else os.path.join(TARGET + "-alt", tag)
-    if profile == "cov":
-        tdir += "-cov"
+    if profile in ("cov", "asan"):
+        tdir += "-" + profile
+    if profile == "valgrind":
+        return binary("release", quiet)
     os.makedirs(tdir, exist_ok=True)
     outdir = os.path.join(TARGET, "bin", "%s-%s" % (tag, profile))
     os.makedirs(outdir, exist_ok=True)
@@ -73,22 +78,28 @@ def binary(profile="debug", quiet=True):
         stamp = os.path.join(outdir, "sources.sha1")
         prev = open(stamp).read().strip() if os.path.exists(stamp) else None
         if prev != cur:
-            fdir = os.path.join(tdir, "release" if profile == "release" else "debug", ".fingerprint")
+            fdir = os.path.join(tdir, "x86_64-unknown-linux-gnu" if profile == "asan" else "", "release" if profile == "release" else "debug", ".fingerprint")
             if os.path.isdir(fdir):
                 for n in os.listdir(fdir):
                     if n.startswith("masscanned-"):
                         shutil.rmtree(os.path.join(fdir, n), ignore_errors=True)
-        cmd = ["cargo", "build", "--offline", "--manifest-path", os.path.join(REPO, "Cargo.toml"),
-               "--target-dir", tdir]
+        cmd = ["cargo"] + (["+nightly"] if profile in ("cov", "asan") else []) + \
+              ["build", "--offline", "--manifest-path", os.path.join(REPO, "Cargo.toml"), "--target-dir", tdir]
         if profile == "release":
             cmd.append("--release")
-        extra = "-Cinstrument-coverage" if profile == "cov" else ""
+        if profile == "asan":
+            cmd += ["--target", "x86_64-unknown-linux-gnu"]
+        extra = {"cov": "-Cinstrument-coverage", "asan": "-Zsanitizer=address -Cforce-frame-pointers=yes"}.get(profile, "")
+        env = _env(extra)
+        if profile == "cov":
+            # instrumented build scripts must not drop *.profraw files into the repository
+            env["LLVM_PROFILE_FILE"] = os.path.join(tdir, "build-%p.profraw")
         t0 = time.time()
-        r = subprocess.run(cmd, env=_env(extra), stdout=subprocess.PIPE, stderr=subprocess.STDOUT, cwd=REPO)
+        r = subprocess.run(cmd, env=env, stdout=subprocess.PIPE, stderr=subprocess.STDOUT, cwd=REPO)
         if r.returncode != 0:
             sys.stdout.write(r.stdout.decode(errors="replace")[-4000:])
             raise BuildError("cargo build failed (%s)" % profile)
-        src = os.path.join(tdir, "release" if profile == "release" else "debug", "masscanned")
+        src = os.path.join(tdir, "x86_64-unknown-linux-gnu" if profile == "asan" else "", "release" if profile == "release" else "debug", "masscanned")
         tmp = out + ".tmp.%d" % os.getpid()
         shutil.copy2(src, tmp)
         os.replace(tmp, out)
@@ -105,3 +116,34 @@ def binary(profile="debug", quiet=True):
 if __name__ == "__main__":
     for p in sys.argv[1:] or ["debug", "release"]:
         print(binary(p, quiet=False))
+
+
+def llvm_tool(name):
+    import glob
+    c = glob.glob(os.path.expanduser("~/.rustup/toolchains/nightly-x86_64-*/lib/rustlib/*/bin/" + name))
+    return c[0] if c else None
+
+
+def coverage_report(profraw_dir):
+    """Merge the *.profraw files of instrumented driver runs and return {source file: (regions, covered regions)}."""
+    import glob
+    import json as _json
+    prof, cov = llvm_tool("llvm-profdata"), llvm_tool("llvm-cov")
+    raws = glob.glob(os.path.join(profraw_dir, "*.profraw"))
+    if not prof or not cov or not raws:
+        return None
+    data = os.path.join(profraw_dir, "merged.profdata")
+    r = subprocess.run([prof, "merge", "-sparse", "-o", data] + raws, stdout=subprocess.PIPE, stderr=subprocess.STDOUT)
+    if r.returncode:
+        return None
+    r = subprocess.run([cov, "export", "-summary-only", "-instr-profile", data, binary_path("cov")], stdout=subprocess.PIPE, stderr=subprocess.PIPE)
+    if r.returncode:
+        return None
+    out = {}
+    for f in _json.loads(r.stdout)["data"][0]["files"]:
+        name = f["filename"]
+        if name.startswith(os.path.abspath(REPO) + "/src/"):
+            s = f["summary"]
+            out[name[len(os.path.abspath(REPO)) + 1:]] = {"regions": s["regions"]["count"], "regions_covered": s["regions"]["covered"],
+                                                         "lines": s["lines"]["count"], "lines_covered": s["lines"]["covered"]}
+    return out
